@@ -1397,7 +1397,13 @@ func (enc *VP8Encoder) EncodeFrame() ([]byte, error) {
 		// Serial path: collect stats separately (not merged into encodeFrame).
 		enc.collectAllStats(&stats)
 	}
-	if optimizeProba(&stats, &enc.proba) > 0 {
+	// Tokens carry the probability values in force when they were recorded. On
+	// the serial path the table also changes in mid-frame (refreshProbas), so
+	// the tokens must be re-recorded with the final table even when this last
+	// optimisation step itself changes nothing; otherwise the macroblocks
+	// recorded before a refresh are coded with probabilities that differ from
+	// the ones written to the frame header.
+	if optimizeProba(&stats, &enc.proba) > 0 || !useParallel {
 		// Re-record tokens with optimized probabilities.
 		enc.rerecordAllTokens()
 	}
